@@ -2107,13 +2107,25 @@ verdict_t check_fit(const fit_case_t& c, ctx_t& ctx)
     //    schedule dependence of the weak learners themselves is decided bit-exactly by the "wfit" sub-check.
     const bool partitions  = c.cfg.is_gboost() && std::any_of(c.cfg.wpool.begin(), c.cfg.wpool.end(), [](int id) { const int w = ((id % 8) + 8) % 8; return w == 1 || w == 2 || w == 7; });
     const bool comparable  = loss->smooth() && !l1 && !partitions;
+    //  * a fit whose solver stopped WITHOUT converging (budget exhausted; typically a separable classification problem under
+    //    the exponential / logistic losses, whose minimiser is at infinity: |prediction| ~ 1e3 and growing) returns an
+    //    arbitrary iterate of a diverging path; re-association noise is amplified along that path (observed: 1e-3
+    //    relative, different from run to run with the same pool).  The NUMERIC comparison needs both fits converged; the
+    //    structural one (exception, weak learners, selected features) does not.
+    bool unconverged_skipped = false;
 
     double      worst = 0.0;
     size_t      worst_at = 0;
     std::string structural;
     for (size_t k = 1; k < outcomes.size(); ++k)
     {
-        const auto d = deviation_of(outcomes[k]);
+        auto d = deviation_of(outcomes[k]);
+        if (d.structural.empty() && !(ref.converged && outcomes[k].converged))
+        {
+            unconverged_skipped = unconverged_skipped || d.ratio > 0.0;
+            ctx.maximum(cat("deviation-unconverged/", kind), d.ratio);
+            d.ratio = 0.0;
+        }
         if (!d.structural.empty() && structural.empty())
         {
             structural = d.structural;
@@ -2132,7 +2144,9 @@ verdict_t check_fit(const fit_case_t& c, ctx_t& ctx)
     {
         const auto sig = cat("C18/fit/", group, "/", structural.empty() ? "predictions-differ" : structural);
         const auto msg = cat(kind, " loss ", loss_id_of(c.cfg, target_kind), ": ", describe_config(0), " ", describe_outcome(ref), "; ", describe_config(worst_at), " ",
-                             describe_outcome(outcomes[worst_at]), structural.empty() ? cat("; deviation = ", worst, " x (1e-5 relative)") : std::string());
+                             describe_outcome(outcomes[worst_at]), structural.empty() ? cat("; deviation = ", worst, " x (1e-5 relative)") : std::string(),
+                             "; solver converged: ", ref.converged ? "yes" : "no", " / ", outcomes[worst_at].converged ? "yes" : "no", "; max|prediction| ",
+                             ref.predictions.empty() ? 0.0 : std::fabs(*std::max_element(ref.predictions.begin(), ref.predictions.end(), [](double a, double b) { return std::fabs(a) < std::fabs(b); })));
         return verdict_t::violation(sig, msg);
     }
     if (comparable && worst > 1.0)
@@ -2161,6 +2175,8 @@ verdict_t check_fit(const fit_case_t& c, ctx_t& ctx)
     ctx.label(cat("loss:", loss_id_of(c.cfg, target_kind)));
     ctx.label_if(ref.threw, "fit-throws");
     ctx.label_if(!converged, "solver-not-converged-somewhere");
+    ctx.label_if(comparable && unconverged_skipped, "numeric-comparison-skipped(unconverged)");
+    ctx.label_if(comparable && converged, "fit-compared-numerically");
     ctx.label_if(peak_outer >= 2, "fold-trial-tasks-overlap");
     ctx.label_if(peak_all >= 2, "pool-tasks-overlap");
     ctx.label_if(c.cfg.is_gboost() && ref.nwlearners == 0, "gboost-bias-only");
